@@ -80,6 +80,8 @@ type VC struct {
 	renderAllDecls bool
 	always   map[string][]*alwaysRec // watch -> accumulators (always("watch", "E") in the contract of the function under verification)
 	topFrame *frame
+	mutexes  map[string]bool // mutexes locked/unlocked somewhere in this function (canonical names)
+	heldAsk  map[string]bool // names asked for by held("...") clauses
 	exitReach []Term
 	exitIdx   []int
 	exitPos   []string
@@ -415,4 +417,12 @@ func (f *frame) taintAlways(w string, some Term) {
 		fresh := vc.declareFresh("G$always!t", SBool)
 		f.st.set(name, vc.define("G$always", mkAnd(old, mkOr(mkNot(some), fresh))))
 	}
+}
+
+
+func (vc *VC) heldAsked(n string) {
+	if vc.heldAsk == nil {
+		vc.heldAsk = map[string]bool{}
+	}
+	vc.heldAsk[n] = true
 }
